@@ -5,6 +5,7 @@ func init() {
 		ID:    "C09",
 		Title: "Evaluation never crashes",
 		Rules: []string{
+			"R-TOKPOS: who writes the lexer's position counters; token positions (evaluation errors carry the line of the construct)",
 			"R-EVALERR: the result of every recursive Eval is returned or tested with isError before use, and on the error side the error is what is returned (itself, wrapped, or as the single element of a result list)",
 			"R-ASSERT: every x.(T) without comma-ok in render-reachable code is dominated by a kind test of x, covered by the builtin dispatch-table invariant, an AST-field stored-type invariant, or established at all call sites",
 		},
@@ -12,6 +13,7 @@ func init() {
 		NotDecided:  "TODO",
 		Assumptions: trustedBase,
 		Run: func(m *Model, s *Sink) {
+			m.RunTokPos(s, "R-TOKPOS")   // errors carry the line of the construct: the line counters are advanced by readChar only
 			m.RunEvalErr(s, "R-EVALERR") // a failing sub-expression fails the render: its error is returned, not replaced or left among the results
 			r := m.Roots()
 			fns := m.reachableFns(r.Render)
